@@ -121,29 +121,29 @@ func init() {
 	V, C, B, R, W := []string{"val"}, []string{"coll"}, []string{"bus"}, []string{"rtr"}, []string{"wrap"}
 
 	// ------------------------------------------------------------------ resource.Value
-	reg("v.get", V, func(w *world, pr *proc) error { touch(w.val.Get()); return nil })
+	reg("v.get", V, func(w *world, pr *proc) error { touch(w.val[pr.in].Get()); return nil })
 	reg("v.getmask", V, func(w *world, pr *proc) error {
-		touch(w.val.Get(resource.WithReadPaths(&testproto.TestAllTypes{}, "default_int32", "default_nested_message.a")))
+		touch(w.val[pr.in].Get(resource.WithReadPaths(&testproto.TestAllTypes{}, "default_int32", "default_nested_message.a")))
 		return nil
 	})
 	reg("v.set", V, func(w *world, pr *proc) error {
-		res, err := w.val.Set(pr.msg(), readingInterceptors()...)
+		res, err := w.val[pr.in].Set(pr.msg(), readingInterceptors()...)
 		touch(res)
 		return err
 	})
 	reg("v.setmask", V, func(w *world, pr *proc) error {
-		res, err := w.val.Set(pr.msg(), resource.WithUpdatePaths("default_int32", "repeated_int32"))
+		res, err := w.val[pr.in].Set(pr.msg(), resource.WithUpdatePaths("default_int32", "repeated_int32"))
 		touch(res)
 		return err
 	})
 	reg("v.cas", V, func(w *world, pr *proc) error {
-		cur := w.val.Get()
-		res, err := w.val.Set(pr.msg(), resource.WithExpectedValue(cur))
+		cur := w.val[pr.in].Get()
+		res, err := w.val[pr.in].Set(pr.msg(), resource.WithExpectedValue(cur))
 		touch(res)
 		return err
 	})
 	reg("v.check", V, func(w *world, pr *proc) error {
-		res, err := w.val.Set(pr.msg(), resource.WithExpectedCheck(func(old proto.Message) error {
+		res, err := w.val[pr.in].Set(pr.msg(), resource.WithExpectedCheck(func(old proto.Message) error {
 			touch(old)
 			if old.(*testproto.TestAllTypes).GetDefaultInt32()%5 == 0 {
 				return status.Error(codes.FailedPrecondition, "multiple of five")
@@ -156,7 +156,7 @@ func init() {
 	pullValue := func(k int, opts ...resource.ReadOption) func(w *world, pr *proc) error {
 		return func(w *world, pr *proc) error {
 			ctx, cancel := context.WithCancel(w.root)
-			consume(pr, w.val.Pull(ctx, opts...), cancel, k, readValueChange)
+			consume(pr, w.val[pr.in].Pull(ctx, opts...), cancel, k, readValueChange)
 			return nil
 		}
 	}
@@ -168,12 +168,12 @@ func init() {
 
 	// ------------------------------------------------------------------ resource.Collection
 	reg("c.get", C, func(w *world, pr *proc) error {
-		m, _ := w.coll.Get(pr.collID())
+		m, _ := w.coll[pr.in].Get(pr.collID())
 		touch(m)
 		return nil
 	})
 	reg("c.list", C, func(w *world, pr *proc) error {
-		for _, m := range w.coll.List(resource.WithInclude(func(id string, item proto.Message) bool {
+		for _, m := range w.coll[pr.in].List(resource.WithInclude(func(id string, item proto.Message) bool {
 			touch(item)
 			return len(id) > 0
 		})) {
@@ -182,13 +182,13 @@ func init() {
 		return nil
 	})
 	reg("c.add", C, func(w *world, pr *proc) error {
-		res, err := w.coll.Add(pr.collID(), pr.msg(), resource.WithCreatedCallback(func() {}))
+		res, err := w.coll[pr.in].Add(pr.collID(), pr.msg(), resource.WithCreatedCallback(func() {}))
 		touch(res)
 		return err
 	})
 	reg("c.gen", C, func(w *world, pr *proc) error {
 		m := pr.msg()
-		res, err := w.coll.Add("", m, resource.WithGenIDIfAbsent(), resource.WithIDCallback(func(id string) {
+		res, err := w.coll[pr.in].Add("", m, resource.WithGenIDIfAbsent(), resource.WithIDCallback(func(id string) {
 			m.DefaultString = id
 			pr.lastID["coll"] = id
 		}))
@@ -196,12 +196,12 @@ func init() {
 		return err
 	})
 	reg("c.upsert", C, func(w *world, pr *proc) error {
-		res, err := w.coll.Update(pr.collID(), pr.msg(), append(readingInterceptors(), resource.WithCreateIfAbsent())...)
+		res, err := w.coll[pr.in].Update(pr.collID(), pr.msg(), append(readingInterceptors(), resource.WithCreateIfAbsent())...)
 		touch(res)
 		return err
 	})
 	reg("c.upd", C, func(w *world, pr *proc) error {
-		res, err := w.coll.Update(pr.collID(), pr.msg(), resource.WithUpdatePaths("default_int32", "map_string_string"))
+		res, err := w.coll[pr.in].Update(pr.collID(), pr.msg(), resource.WithUpdatePaths("default_int32", "map_string_string"))
 		touch(res)
 		return err
 	})
@@ -210,7 +210,7 @@ func init() {
 		if own := pr.lastID["coll"]; own != "" && pr.rnd.n(2) == 0 {
 			id = own
 		}
-		res, err := w.coll.Delete(id, resource.WithAllowMissing(true), resource.WithExpectedCheck(func(old proto.Message) error {
+		res, err := w.coll[pr.in].Delete(id, resource.WithAllowMissing(true), resource.WithExpectedCheck(func(old proto.Message) error {
 			touch(old)
 			return nil
 		}))
@@ -220,7 +220,7 @@ func init() {
 	pullColl := func(k int, opts ...resource.ReadOption) func(w *world, pr *proc) error {
 		return func(w *world, pr *proc) error {
 			ctx, cancel := context.WithCancel(w.root)
-			consume(pr, w.coll.Pull(ctx, opts...), cancel, k, readCollectionChange)
+			consume(pr, w.coll[pr.in].Pull(ctx, opts...), cancel, k, readCollectionChange)
 			return nil
 		}
 	}
@@ -232,7 +232,7 @@ func init() {
 	reg("c.pullcancel", C, pullColl(0))
 	reg("c.pullid", C, func(w *world, pr *proc) error {
 		ctx, cancel := context.WithCancel(w.root)
-		consume(pr, w.coll.PullID(ctx, pr.collID(), resource.WithBackpressure(true)), cancel, 2, readValueChange)
+		consume(pr, w.coll[pr.in].PullID(ctx, pr.collID(), resource.WithBackpressure(true)), cancel, 2, readValueChange)
 		return nil
 	})
 
@@ -240,7 +240,7 @@ func init() {
 	reg("b.send", B, func(w *world, pr *proc) error {
 		ctx, cancel := context.WithTimeout(w.root, 2*time.Millisecond)
 		defer cancel()
-		if !w.bus.Send(ctx, pr.msg()) {
+		if !w.bus[pr.in].Send(ctx, pr.msg()) {
 			return errors.New("not sent")
 		}
 		return nil
@@ -249,14 +249,14 @@ func init() {
 		ctx, cancel := context.WithTimeout(w.root, 2*time.Millisecond)
 		defer cancel()
 		for i := 0; i < 4; i++ {
-			w.bus.Send(ctx, pr.msg())
+			w.bus[pr.in].Send(ctx, pr.msg())
 		}
 		return nil
 	})
 	listen := func(k int) func(w *world, pr *proc) error {
 		return func(w *world, pr *proc) error {
 			ctx, cancel := context.WithCancel(w.root)
-			consume(pr, w.bus.Listen(ctx), cancel, k, func(ev any) { touch(ev.(proto.Message)) })
+			consume(pr, w.bus[pr.in].Listen(ctx), cancel, k, func(ev any) { touch(ev.(proto.Message)) })
 			return nil
 		}
 	}
@@ -266,20 +266,20 @@ func init() {
 
 	// ------------------------------------------------------------------ router.Router (through the generated OnOff router)
 	reg("r.add", R, func(w *world, pr *proc) error {
-		useAny(w.rtr.Add(pr.name(), newOnOffClient()))
+		useAny(w.rtr[pr.in].Add(pr.name(), newOnOffClient()))
 		return nil
 	})
 	reg("r.rem", R, func(w *world, pr *proc) error {
-		useAny(w.rtr.Remove(pr.name()))
+		useAny(w.rtr[pr.in].Remove(pr.name()))
 		return nil
 	})
 	reg("r.has", R, func(w *world, pr *proc) error {
-		useBool(w.rtr.Has(pr.name()))
+		useBool(w.rtr[pr.in].Has(pr.name()))
 		return nil
 	})
 	reg("r.get", R, func(w *world, pr *proc) error {
 		name := pr.name()
-		cli, err := w.rtr.GetOnOffApiClient(name)
+		cli, err := w.rtr[pr.in].GetOnOffApiClient(name)
 		if err != nil {
 			return err
 		}
@@ -288,23 +288,23 @@ func init() {
 		return err
 	})
 	reg("r.call", R, func(w *world, pr *proc) error {
-		res, err := w.rtrCli.GetOnOff(w.root, &traits.GetOnOffRequest{Name: pr.name()})
+		res, err := w.rtrCli[pr.in].GetOnOff(w.root, &traits.GetOnOffRequest{Name: pr.name()})
 		touch(res)
 		return err
 	})
 	reg("r.upd", R, func(w *world, pr *proc) error {
-		res, err := w.rtrCli.UpdateOnOff(w.root, &traits.UpdateOnOffRequest{Name: pr.name(), OnOff: &traits.OnOff{State: traits.OnOff_State(1 + pr.rnd.n(2))}})
+		res, err := w.rtrCli[pr.in].UpdateOnOff(w.root, &traits.UpdateOnOffRequest{Name: pr.name(), OnOff: &traits.OnOff{State: traits.OnOff_State(1 + pr.rnd.n(2))}})
 		touch(res)
 		return err
 	})
 	reg("r.pull", R, func(w *world, pr *proc) error {
-		return consumeStream(w, pr, w.rtrCli, pr.name(), 2)
+		return consumeStream(w, pr, w.rtrCli[pr.in], pr.name(), 2)
 	})
 
 	// ------------------------------------------------------------------ wrapped clients (wrap.ServerToClient)
 	reg("w.get", W, func(w *world, pr *proc) error {
 		var hd, tr metadata.MD
-		res, err := w.wrapCli.GetOnOff(w.root, &traits.GetOnOffRequest{Name: "x"}, grpc.Header(&hd), grpc.Trailer(&tr))
+		res, err := w.wrapCli[pr.in].GetOnOff(w.root, &traits.GetOnOffRequest{Name: "x"}, grpc.Header(&hd), grpc.Trailer(&tr))
 		touch(res)
 		touchMD(hd)
 		touchMD(tr)
@@ -312,22 +312,22 @@ func init() {
 	})
 	reg("w.upd", W, func(w *world, pr *proc) error {
 		var hd, tr metadata.MD
-		res, err := w.wrapCli.UpdateOnOff(w.root, &traits.UpdateOnOffRequest{Name: "x", OnOff: &traits.OnOff{State: traits.OnOff_State(1 + pr.rnd.n(2))}},
+		res, err := w.wrapCli[pr.in].UpdateOnOff(w.root, &traits.UpdateOnOffRequest{Name: "x", OnOff: &traits.OnOff{State: traits.OnOff_State(1 + pr.rnd.n(2))}},
 			grpc.Header(&hd), grpc.Trailer(&tr))
 		touch(res)
 		touchMD(hd)
 		touchMD(tr)
 		return err
 	})
-	reg("w.pull", W, func(w *world, pr *proc) error { return consumeStream(w, pr, w.wrapCli, "x", 3) })
-	reg("w.pulllazy", W, func(w *world, pr *proc) error { return consumeStream(w, pr, w.wrapCli, "lazy", 2) })
-	reg("w.pullend", W, func(w *world, pr *proc) error { return consumeStream(w, pr, w.wrapCli, "end", 5) })
-	reg("w.pullcancel", W, func(w *world, pr *proc) error { return consumeStream(w, pr, w.wrapCli, "x", 0) })
+	reg("w.pull", W, func(w *world, pr *proc) error { return consumeStream(w, pr, w.wrapCli[pr.in], "x", 3) })
+	reg("w.pulllazy", W, func(w *world, pr *proc) error { return consumeStream(w, pr, w.wrapCli[pr.in], "lazy", 2) })
+	reg("w.pullend", W, func(w *world, pr *proc) error { return consumeStream(w, pr, w.wrapCli[pr.in], "end", 5) })
+	reg("w.pullcancel", W, func(w *world, pr *proc) error { return consumeStream(w, pr, w.wrapCli[pr.in], "x", 0) })
 	reg("w.precancel", W, func(w *world, pr *proc) error {
 		ctx, cancel := context.WithCancel(w.root)
 		cancel()
 		var hd, tr metadata.MD
-		res, err := w.wrapCli.GetOnOff(ctx, &traits.GetOnOffRequest{Name: "x"}, grpc.Header(&hd), grpc.Trailer(&tr))
+		res, err := w.wrapCli[pr.in].GetOnOff(ctx, &traits.GetOnOffRequest{Name: "x"}, grpc.Header(&hd), grpc.Trailer(&tr))
 		touch(res)
 		touchMD(hd)
 		touchMD(tr)
@@ -345,19 +345,19 @@ func init() {
 			fail := pr.rnd.n(3) == 0
 			members := []group.Member{
 				func(ctx context.Context) (proto.Message, error) {
-					return w.wrapCli.GetOnOff(ctx, &traits.GetOnOffRequest{Name: "x"})
+					return w.wrapCli[pr.in].GetOnOff(ctx, &traits.GetOnOffRequest{Name: "x"})
 				},
 				func(ctx context.Context) (proto.Message, error) {
-					return w.wrapCli.UpdateOnOff(ctx, &traits.UpdateOnOffRequest{Name: "x", OnOff: &traits.OnOff{State: state}})
+					return w.wrapCli[pr.in].UpdateOnOff(ctx, &traits.UpdateOnOffRequest{Name: "x", OnOff: &traits.OnOff{State: state}})
 				},
 				func(ctx context.Context) (proto.Message, error) {
 					if fail {
 						return nil, status.Error(codes.Unavailable, "member down")
 					}
-					return w.val.Get(), nil
+					return w.val[pr.in].Get(), nil
 				},
 				func(ctx context.Context) (proto.Message, error) {
-					return w.val.Set(mkMsg(int(state)), readingInterceptors()...)
+					return w.val[pr.in].Set(mkMsg(int(state)), readingInterceptors()...)
 				},
 			}
 			res, err := group.Execute(w.root, strategy, members)
